@@ -29,8 +29,17 @@ What is shown, for EVERY byte string `b`:
   (`header_valid_iff`, `header_tables`): channels 1…57 and height/width 1…300001 — `range_(1, 57)` and
   `range_(1, 300001)` are inclusive in `validators.py`, one more than the 56 / 300000 of the format
   description; the limits do not depend on the version.
-* cost (see the second half of this file): ticks and bytes returned by `fp.read` are linear in the
-  input length.
+* cost. `PSD.readC` (`Model/PsdCost.lean`) is the SAME reader with a step counter (one tick per primitive
+  read on the stream, per loop iteration, per nested `io.BytesIO` entered) and an allocation counter (bytes
+  RETURNED by `fp.read` — a declared length larger than the remaining data returns only what is there — plus
+  every block copied into a nested `io.BytesIO`). `readC_erases`: it returns what `PSD.read` returns.
+  `read_cost_bound`: ticks + bytes ≤ 13 · n + 224 for an input of `n` bytes, for every outcome (the cost is
+  kept when a step raises). Linear, not quadratic as DESIGN anticipated: the nesting depth of `BytesIO` copies
+  in the skeleton is a constant (main stream → extra block of a layer record → mask / blending-ranges block;
+  resources block; global-mask block), each level is paid by the bytes the enclosing level skipped, and the one
+  backward seek (`LayerAndMaskInformation.read` → `end_pos` after an over-run) is followed by `ImageData.read`
+  only. No count or length taken from the file drives an allocation or a loop by itself: every iteration of a
+  `range(count)` loop consumes ≥ 1 byte through `read_fmt` or raises.
 
 What the model does NOT show. The bound is about the skeleton only: payload classes are opaque bytes here.
 The real code is super-linear in places outside the skeleton — nested `io.BytesIO` copies inside payload
@@ -40,16 +49,18 @@ per token. Real time, real memory, interpreter crashes, zlib and PIL native code
 that only the watchdog-supervised subprocess of harness/props/C06.py observes.
 -/
 import PsdVerif.Lemmas.Safe3
+import PsdVerif.Lemmas.SafeCost4
 import PsdVerif.Lemmas.SafeSamples
 import PsdVerif.Props.C05
 
 namespace PsdVerif.C06
-open PsdVerif PsdVerif.Codec PsdVerif.Psd PsdVerif.Safe
+open PsdVerif PsdVerif.Codec PsdVerif.Psd PsdVerif.Safe PsdVerif.SafeCost
+open PsdVerif.PsdCost (Cost CE)
 
 /-! ### 1. totality, no fuel exhaustion -/
 
 /-- Lean totality = every count/length-driven loop of the model reader terminates for every corrupt value -/
-theorem read_total : ∀ b : B, ∃ r, PSD.read b 0 = r := fun b => ⟨_, rfl⟩
+theorem read_total : ∀ b : B, ∃ r, PSD.read b 0 = r := fun _ => ⟨_, rfl⟩
 
 /-- generic: a `while cond: item` loop whose condition only holds inside the stream and whose items consume
 at least one byte whenever they return a value never runs out of fuel, stays inside the stream, and raises
@@ -279,6 +290,68 @@ theorem psd_read_header_valid {b : B} {v : PSD} {p : Nat} (h : PSD.read b 0 = .o
   exact ⟨by omega, this.2.2.2, this.1⟩
 
 example : PSD.read badVersionPsd 0 = .error .valueError := by decide +kernel
+
+/-! ### 5. cost -/
+
+/-- the counting interpreter IS the reader: same results for every input -/
+theorem readC_erases (b : B) : (PsdCost.PSD.readC b 0).1 = PSD.read b 0 := psd_fst b 0
+
+/-- … section by section, at any position of any stream -/
+theorem header_erases (d : B) (p : Nat) : (PsdCost.Header.decC d p).1 = Header.dec d p := header_fst d p
+theorem resources_erases (d : B) (p : Nat) : (PsdCost.resourcesDecC d p).1 = resourcesDec d p := resources_fst d p
+theorem tagged_blocks_erases (v pad : Nat) (e : Option Nat) (d : B) (p : Nat) :
+    (PsdCost.taggedBlocksDecC v pad e d p).1 = taggedBlocksDec v pad e d p := taggedBlocks_fst v pad e d p
+theorem layer_record_erases (v : Nat) (d : B) (p : Nat) : (PsdCost.LayerRecord.decC v d p).1 = LayerRecord.dec v d p :=
+  layerRecord_fst v d p
+theorem layer_info_erases (v : Nat) (d : B) (p : Nat) : (PsdCost.LayerInfo.decC v d p).1 = LayerInfo.dec v d p :=
+  layerInfo_fst v d p
+theorem layer_and_mask_erases (v : Nat) (d : B) (p : Nat) : (PsdCost.LayerAndMask.decC v d p).1 = LayerAndMask.dec v d p :=
+  layerAndMask_fst v d p
+theorem image_data_erases (d : B) (p : Nat) : (PsdCost.ImageData.decC d p).1 = ImageData.dec d p := imageData_fst d p
+
+/-- ticks + bytes, for every outcome -/
+theorem read_cost_bound (b : B) :
+    (PsdCost.PSD.readC b 0).2.ticks + (PsdCost.PSD.readC b 0).2.alloc ≤ 13 * b.length + 224 := psd_w_le b
+
+theorem read_steps_bound (b : B) : (PsdCost.PSD.readC b 0).2.ticks ≤ 13 * b.length + 224 := by
+  have := read_cost_bound b; omega
+
+theorem read_alloc_bound (b : B) : (PsdCost.PSD.readC b 0).2.alloc ≤ 13 * b.length + 224 := by
+  have := read_cost_bound b; omega
+
+/-- concrete runs: the minimal file; a truncation, a section over-run, a short pascal string, a `2^63` section
+(the cost spent before the exception is kept); the empty input -/
+example : (PsdCost.PSD.readC minimalPsd 0).2 = ⟨22, 41⟩ ∧ (PsdCost.PSD.readC (minimalPsd.take 30) 0).2 = ⟨14, 30⟩ ∧
+    (PsdCost.PSD.readC overrunPsd 0).2 = ⟨22, 42⟩ ∧ (PsdCost.PSD.readC shortPascalPsd 0).2 = ⟨23, 62⟩ ∧
+    (PsdCost.PSD.readC overflowPsd 0).2 = ⟨27, 54⟩ ∧ (PsdCost.PSD.readC [] 0).2 = ⟨1, 0⟩ := by decide +kernel
+
+/-- per reader, whatever the outcome: cost ≤ a · (stream length) + b. The coefficient grows with the nesting
+depth below the reader, which is a constant of the skeleton. -/
+theorem resources_cost (d : B) (p : Nat) : (PsdCost.resourcesDecC d p).2.w ≤ 5 * d.length + 26 := (resources_pays d p).w_le
+theorem tagged_blocks_cost (v pad : Nat) (e : Option Nat) (d : B) (p : Nat) :
+    (PsdCost.taggedBlocksDecC v pad e d p).2.w ≤ 3 * d.length + 30 := (taggedBlocks_pays v pad e d p).w_le
+theorem layer_record_cost (v : Nat) (d : B) (p : Nat) : (PsdCost.LayerRecord.decC v d p).2.w ≤ 8 * d.length + 106 :=
+  (layerRecord_pays v d p).w_le
+theorem layer_info_cost (v : Nat) (d : B) (p : Nat) : (PsdCost.LayerInfo.decC v d p).2.w ≤ 12 * d.length + 113 :=
+  (layerInfo_pays v d p).w_le
+theorem layer_and_mask_cost (v : Nat) (d : B) (p : Nat) : (PsdCost.LayerAndMask.decC v d p).2.w ≤ 12 * d.length + 184 := by
+  have h := layerAndMask_spend v d p
+  unfold Spend at h
+  have : pot 12 d p ≤ 12 * d.length := Nat.mul_le_mul_left 12 (by omega)
+  omega
+
+/-- a successful reader that does not seek is paid by the bytes it consumed: cost ≤ a · (advance) + b -/
+theorem layer_record_cost_by_advance {v : Nat} {d : B} {p : Nat} {r : LayerRecord} {p' : Nat}
+    (h : LayerRecord.dec v d p = .ok (r, p')) (hp : p ≤ d.length) :
+    (PsdCost.LayerRecord.decC v d p).2.w ≤ 8 * (p' - p) + 106 := by
+  have hc := (layerRecord_pays v d p).of_ok ((layerRecord_fst v d p).trans h)
+  have hg := (layerRecord_good v d p).cursor h hp
+  unfold pot at hc
+  omega
+
+example : (LayerRecord.dec 1 recordBytes 0).toOption.map (·.2) = some 46 ∧
+    (PsdCost.LayerRecord.decC 1 recordBytes 0).2 = ⟨28, 70⟩ := by decide +kernel
+example : LayerRecord.dec 1 [] 0 = .error .ioError ∧ (PsdCost.LayerRecord.decC 1 [] 0).2 = ⟨1, 0⟩ := by decide +kernel
 
 /-! ### 6. the native decoder -/
 
